@@ -52,21 +52,27 @@ def readdCell (k : Kernel) (n : Nat × List Nat) : Kernel :=
   | some nc => { r.1 with props := swapCProp r.1.props n.1 nc }
   | none => { r.1 with fault := true }
 
-/-- `collapse_edge` (cc:311-403); returns the surviving vertex handle -/
-def collapseEdge (k0 : Kernel) (heh : Nat) : Kernel × Nat :=
-  let defTmp := k0.deferred
-  let k := if !defTmp then k0.enableDeferred true else k0
+/-- the loop over the cells incident to `a` (cc:333-373) -/
+def collapseStar (k : Kernel) (a b : Nat) (collapsing : List Nat) : Kernel × List (Nat × List Nat) :=
+  (k.qVC a).foldl (collapseCell a b collapsing) (k, [])
+
+/-- `delete_vertex(from_vh)` and the re-creation of the remembered cells (cc:393-397) -/
+def collapseFinish (r : Kernel × List (Nat × List Nat)) (a : Nat) : Kernel :=
+  r.2.foldl readdCell (r.1.deleteVertex a)
+
+/-- `collapse_edge` between the two mode switches: `k` is in deferred mode, `defTmp` was the caller's -/
+def collapseBody (k : Kernel) (defTmp : Bool) (heh : Nat) : Kernel × Nat :=
   let a := k.fromV heh
   let b := k.toV heh
   let around := k.qHEHF heh
-  let k := { k with fault := k.fault || (!k.fBU && !around.isEmpty) }
-  let collapsing := toSet (around.filterMap k.cellOf)
-  let incident := k.qVC a
-  let r := incident.foldl (collapseCell a b collapsing) (k, [])
-  let surv := survivingVertex defTmp r.1.fast a b r.1.nV
-  let k2 := r.1.deleteVertex a
-  let k3 := r.2.foldl readdCell k2
-  (k3.enableDeferred defTmp, surv)
+  let kf : Kernel := { k with fault := k.fault || (!k.fBU && !around.isEmpty) }
+  let r := kf.collapseStar a b (toSet (around.filterMap kf.cellOf))
+  (collapseFinish r a, survivingVertex defTmp r.1.fast a b r.1.nV)
+
+/-- `collapse_edge` (cc:311-403); returns the surviving vertex handle -/
+def collapseEdge (k0 : Kernel) (heh : Nat) : Kernel × Nat :=
+  let r := (if !k0.deferred then k0.enableDeferred true else k0).collapseBody k0.deferred heh
+  (r.1.enableDeferred k0.deferred, r.2)
 
 /-- re-creation of a cell through `add_cell(v0,v1,v2,v3)` with a *copy* of the old cell's property
     values (cc:437-441, 475-479) -/
@@ -87,15 +93,15 @@ def splitEdgeHf (heh vh : Nat) (st : Kernel × List (Nat × List Nat)) (hfh : Na
     ({ (k.deleteCell ch) with fault := k.fault || decide (vs.length < 4) },
      st.2 ++ [(ch, [v 0, vh, v 2, v 3]), (ch, [vh, v 1, v 2, v 3])])
 
-/-- `split_edge(heh, vh)` (cc:406-447) -/
-def splitEdgeAt (k0 : Kernel) (heh vh : Nat) : Kernel :=
-  let defTmp := k0.deferred
-  let k := if !defTmp then k0.enableDeferred true else k0
+/-- `split_edge` between the two mode switches -/
+def splitEdgeBody (k : Kernel) (heh vh : Nat) : Kernel :=
   let hfs := (k.qHEHF heh).filter (fun hf => k.cellOf hf != none)
   let r := hfs.foldl (splitEdgeHf heh vh) (k, [])
-  let k2 := r.1.deleteEdge (eOf heh)
-  let k3 := r.2.foldl readdCell4 k2
-  k3.enableDeferred defTmp
+  r.2.foldl readdCell4 (r.1.deleteEdge (eOf heh))
+
+/-- `split_edge(heh, vh)` (cc:406-447) -/
+def splitEdgeAt (k0 : Kernel) (heh vh : Nat) : Kernel :=
+  ((if !k0.deferred then k0.enableDeferred true else k0).splitEdgeBody heh vh).enableDeferred k0.deferred
 
 /-- one side of the split face (cc:460-472) -/
 def splitFaceSide (fh vh : Nat) (st : Kernel × List (Nat × List Nat)) (i : Nat) : Kernel × List (Nat × List Nat) :=
@@ -109,14 +115,14 @@ def splitFaceSide (fh vh : Nat) (st : Kernel × List (Nat × List Nat)) (i : Nat
     ({ (k.deleteCell ch) with fault := k.fault || decide (vs.length < 4) },
      st.2 ++ [(ch, [v 0, v 1, vh, v 3]), (ch, [v 0, vh, v 2, v 3]), (ch, [vh, v 1, v 2, v 3])])
 
+/-- `split_face` between the two mode switches -/
+def splitFaceBody (k : Kernel) (fh vh : Nat) : Kernel :=
+  let r := [0, 1].foldl (splitFaceSide fh vh) (k, [])
+  r.2.foldl readdCell4 (r.1.deleteFace fh)
+
 /-- `split_face(fh, vh)` (cc:450-483) -/
 def splitFaceAt (k0 : Kernel) (fh vh : Nat) : Kernel :=
-  let defTmp := k0.deferred
-  let k := if !defTmp then k0.enableDeferred true else k0
-  let r := [0, 1].foldl (splitFaceSide fh vh) (k, [])
-  let k2 := r.1.deleteFace fh
-  let k3 := r.2.foldl readdCell4 k2
-  k3.enableDeferred defTmp
+  ((if !k0.deferred then k0.enableDeferred true else k0).splitFaceBody fh vh).enableDeferred k0.deferred
 
 /-- `TetrahedralGeometryKernel::split_edge(heh, alpha)`: new vertex, then the topological split -/
 def splitEdge (k : Kernel) (heh : Nat) : Kernel × Nat :=
